@@ -9,10 +9,12 @@
    the three registry functions happens with muP held), plus the connection-close step
    (context cancellation, which makes Player.Active false) as its own action.
 
-   Two recorded deviations of today's code are kept as switches of one definition:
-     v_unreg = true : unregisterConnection deletes by name and id unconditionally      (finding C11-1)
-     v_leak  = true : registerConnection returns false WITHOUT unlocking muP (kick off) (finding C11-2)
-   impl_cfg sets both (today's code), spec_cfg clears both (what the property demands). *)
+   Two defects of the PRE-FIX code (findings C11-1 and C11-2, both repaired in /repo by `fix:` commits)
+   are kept as switches of one definition so that the old behaviour stays documented and refuted:
+     v_unreg = true : unregisterConnection deletes by name and id unconditionally      (pre-fix, C11-1)
+     v_leak  = true : registerConnection returns false WITHOUT unlocking muP (kick off) (pre-fix, C11-2)
+   impl_cfg = the code as it is now = spec_cfg (both switches off); prefix_cfg sets both (the code
+   before the repairs).  The judge only accepts impl_cfg: a recurrence of either defect is a violation. *)
 From Coq Require Import List NArith Bool String Ascii.
 From Verif Require Import Base.Conc.
 Import ListNotations.
@@ -101,11 +103,12 @@ Definition add_dup (o : N) (s : state) : state :=
 Record cfg := mkC {
   online  : bool;      (* Config.OnlineMode *)
   kick    : bool;      (* Config.OnlineModeKickExistingPlayers *)
-  v_unreg : bool;      (* true = today's unconditional delete *)
-  v_leak  : bool       (* true = today's missing Unlock on the failure path *)
+  v_unreg : bool;      (* true = the PRE-FIX unconditional delete *)
+  v_leak  : bool       (* true = the PRE-FIX missing Unlock on the failure path *)
 }.
-Definition impl_cfg (on kk : bool) : cfg := mkC on kk true true.
-Definition spec_cfg (on kk : bool) : cfg := mkC on kk false false.
+Definition spec_cfg (on kk : bool) : cfg := mkC on kk false false.   (* what the property demands *)
+Definition impl_cfg (on kk : bool) : cfg := spec_cfg on kk.          (* the code as it is now *)
+Definition prefix_cfg (on kk : bool) : cfg := mkC on kk true true.   (* the code before fix C11-1 / C11-2 *)
 
 (* ---------- the three registry functions (each body = one critical section) ---------- *)
 
@@ -122,7 +125,7 @@ Definition insert (p : player) (s : state) : state :=
   set_maps (put String.eqb (lname p) p (names s)) (put N.eqb (p_id p) p (ids s)) s.
 
 (* registerConnection, else branch (kick off): name taken or id taken => return false.
-   Today's code returns there with muP still locked (v_leak). *)
+   The pre-fix code returned there with muP still locked (v_leak). *)
 Definition register_nokick (c : cfg) (p : player) (s : state) : state * bool :=
   match get_name (lname p) s, get_id (p_id p) s with
   | None, None => (insert p s, true)
@@ -139,8 +142,8 @@ Definition register_kick_pass (p : player) (s : state) : player + state :=
   end.
 
 (* unregisterConnection.  found = an entry exists under the player's id.
-   impl (v_unreg): delete(playerNames, lower(name)); delete(playerIDs, id) whoever is stored there.
-   spec: found and the deletes only concern entries that hold this very player. *)
+   now (= spec): found and the deletes only concern entries that hold this very player.
+   pre-fix (v_unreg): delete(playerNames, lower(name)); delete(playerIDs, id) whoever is stored there. *)
 Definition stored_is (p : player) (o : option player) : bool :=
   match o with Some q => player_eqb q p | None => false end.
 
@@ -155,14 +158,15 @@ Definition unregister (c : cfg) (p : player) (s : state) : state * bool :=
 
 Definition impl_unregister := unregister (impl_cfg false false).
 Definition spec_unregister := unregister (spec_cfg false false).
+Definition prefix_unregister := unregister (prefix_cfg false false).
 
-(* the recorded trigger of finding C11-1: an unregister issued for a player object that is not the
+(* the trigger of (fixed) finding C11-1: an unregister issued for a player object that is not the
    stored one while a different player is stored under its lower-case name or under its id *)
 Definition other_stored (p : player) (o : option player) : bool :=
   match o with Some q => negb (player_eqb q p) | None => false end.
 Definition trigger_unreg (p : player) (s : state) : bool :=
   other_stored p (get_name (lname p) s) || other_stored p (get_id (p_id p) s).
-(* the recorded trigger of finding C11-2: registerConnection (kick off) on a taken name or id *)
+(* the trigger of (fixed) finding C11-2: registerConnection (kick off) on a taken name or id *)
 Definition trigger_leak (c : cfg) (p : player) (s : state) : bool :=
   negb (kick c) &&
   match get_name (lname p) s, get_id (p_id p) s with None, None => false | _, _ => true end.
@@ -183,6 +187,20 @@ Inductive event :=
 Definition teardown (c : cfg) (p : player) (s : state) : state * status :=
   let '(s1, found) := unregister c p s in
   (s1, if found then (if memN (p_obj p) (dups s) then SConflicting else SSuccessful) else SCanceled).
+
+(* Decidable form of "a new registration under a UUID comes after the removal of the older one", used
+   by the judge on OBSERVED event logs: walking the trace with the list of players that are registered
+   and not yet removed by their own teardown / unregister, a registration of p must find no other
+   live player with p's UUID.  (Proofs/C11.v: order_ok_sound links it to reg_order.) *)
+Fixpoint order_ok (livep : list player) (evs : list event) : bool :=
+  match evs with
+  | [] => true
+  | EvReg p :: r =>
+      forallb (fun q => player_eqb q p || negb (p_id q =? p_id p)) livep && order_ok (p :: livep) r
+  | EvTeardown q _ :: r => order_ok (filter (fun x => negb (player_eqb x q)) livep) r
+  | EvUnreg q :: r => order_ok (filter (fun x => negb (player_eqb x q)) livep) r
+  | _ :: r => order_ok livep r
+  end.
 
 (* ---------- atomic actions of goroutine t ---------- *)
 
